@@ -108,39 +108,39 @@ fn parse_escaped_string<'a>(
                 // utf-8 string the surrogates are required to be paired,
                 // whereas deserializing a byte string accepts lone surrogates.
                 n1 @ 0xD800..=0xDBFF => {
-                    if data.len() < 2 {
+                    if data.len() < 2 || data[0] != b'\\' || data[1] != b'u' {
                         encode_invalid_unicode(numbers, str_buf);
                         return Ok(data);
                     }
-                    if data[0] == b'\\' && data[1] == b'u' {
-                        *idx += 2;
-                        data = &data[2..];
-                    } else {
-                        encode_invalid_unicode(numbers, str_buf);
-                        return Ok(data);
-                    }
+                    // Peek the following unicode escape,
+                    // it is only consumed if it is the paired low surrogate.
+                    let mut lower_data = &data[2..];
+                    let mut lower_idx = *idx + 2;
                     let mut lower_numbers = vec![0; UNICODE_LEN];
-                    if data[0] == b'{' {
-                        data = &data[1..];
-                        data.read_exact(lower_numbers.as_mut_slice())?;
-                        if data[0] != b'}' {
+                    if lower_data.first() == Some(&b'{') {
+                        lower_data = &lower_data[1..];
+                        lower_data.read_exact(lower_numbers.as_mut_slice())?;
+                        if lower_data.first() != Some(&b'}') {
                             return Err(Error::Syntax(
                                 ParseErrorCode::UnexpectedEndOfHexEscape,
-                                *idx,
+                                lower_idx,
                             ));
                         }
-                        data = &data[1..];
-                        *idx += 6;
+                        lower_data = &lower_data[1..];
+                        lower_idx += 6;
                     } else {
-                        data.read_exact(lower_numbers.as_mut_slice())?;
-                        *idx += 4;
+                        lower_data.read_exact(lower_numbers.as_mut_slice())?;
+                        lower_idx += 4;
                     }
-                    let n2 = decode_hex_escape(lower_numbers.clone(), idx)?;
+                    let n2 = decode_hex_escape(lower_numbers, &lower_idx)?;
                     if !(0xDC00..=0xDFFF).contains(&n2) {
+                        // The high surrogate is not paired, keep it as literal text,
+                        // the following escape is parsed on its own.
                         encode_invalid_unicode(numbers, str_buf);
-                        encode_invalid_unicode(lower_numbers, str_buf);
                         return Ok(data);
                     }
+                    data = lower_data;
+                    *idx = lower_idx;
 
                     let n = (((n1 - 0xD800) as u32) << 10 | (n2 - 0xDC00) as u32) + 0x1_0000;
                     char::from_u32(n).unwrap()
